@@ -13,19 +13,20 @@ from . import cpml_api as P
 from . import yee_api as Y
 from .common import f2h, h2f
 
-RULE = ("K: scenes with PML on all six faces (uniform 22x7x6) or on a random subset of >= 2 faces (non-uniform 22x6x5 "
-        "cells), per-face thickness 1..6, "
-        "default grading or random sigma/kappa/alpha start/end/order incl. sigma_start=alpha_start=0 (0/0 -> nan_to_num) "
-        "and kappa != 1), plus PMLs placed directly with place_on_grid on the long axis with thickness 1..20 on both "
-        "directions: (1) pml_a/b/inv_kappa E and H arrays vs model `coef` (profile, expm1, nan_to_num) and default "
-        "sigma_end vs `sigend`; (2) step_cpml with random derivative / psi arrays, both coefficient sets and both "
-        "simulate_boundaries values vs `stepcpml`; (3) curl_E / curl_H with the PML objects on random fields and psi "
-        "vs `pmlcurlE/H` (curl and updated psi); (4) one forward() step vs `pmlfwd` (E, H, psi_E, psi_H). Tolerance 1e-9. "
-        "Oracle on the implementation: numpy re-implementation of the coefficient formulas, 0 < b <= 1, a <= 0, a = 0 "
-        "at the inner face when sigma_start = 0, inv_kappa = 1 for default kappa; scenario: >= 8-cell layers on all "
-        "faces, 28..36 cells per axis, dipole (thorough: also plane) source with a sine-phase narrow-band Gaussian "
-        "pulse, residual energy / peak < 1e-6 after the pulse has left; thorough: relative energy difference to a "
-        "reference domain enlarged by 24 cells per side < 1e-4. non-trivial = non-default grading, thickness, "
+RULE = ("K: placed scenes (quick: one non-uniform 22x6x5 scene with PML on a random subset of >= 2 faces; thorough: 4 "
+        "uniform 22x7x6 scenes with PML on all six faces + 4 non-uniform ones), per-face thickness 1..6, default grading "
+        "or random sigma/kappa/alpha start/end/order incl. sigma_start=alpha_start=0 (0/0 -> nan_to_num) and kappa != 1, "
+        "plus PMLs placed directly with place_on_grid on the long axis with thickness 1..20, both directions, on the "
+        "scene's grid and on an unplaced uniform config: (1) pml_a/b/inv_kappa E and H arrays vs model `coef` (profile, "
+        "expm1, nan_to_num) and default sigma_end vs `sigend`; (2) step_cpml with random derivative / psi arrays, both "
+        "coefficient sets and both simulate_boundaries values vs `stepcpml`; (3) curl_E / curl_H with the PML objects on "
+        "random fields and psi vs `pmlcurlE/H` (curl and updated psi); (4) one forward() step vs `pmlfwd` (E, H, psi_E, "
+        "psi_H). Tolerance 1e-9. Oracle on the implementation: numpy re-implementation of the coefficient formulas and "
+        "of the default sigma_end, 0 < b <= 1, a <= 0, a = 0 and 1/kappa = 1 at the inner face for the default grading; "
+        "scenario: 8 (thorough 8..10) cell layers on all faces, 28..36 cells per axis, dipole (thorough also "
+        "finite-aperture plane) source with a sine-phase narrow-band Gaussian pulse, residual energy / peak < 1e-6 after "
+        "the pulse has left; thorough (and the failing-input search): relative energy difference to a reference domain "
+        "enlarged by 24 (search: 12) cells per side < 1e-4. non-trivial = non-default grading, thickness != 10, "
         "non-uniform grid, or a scenario.")
 
 TOL = 1e-9
